@@ -165,7 +165,7 @@ def write_evidence(path, pid, tier, seed, prop, results, val_ok, val_bad, violat
         for s in r.get('samples', [])[:2]:
             samples.append(dict(s, job=r['job']))
     samples = samples[:12] or [{'note': 'no path completed'}]
-    nontrivial = tot('paths')
+    nontrivial = tot('nontrivial_paths')
     ev = {
         'property_id': pid, 'tier': tier, 'seed': seed, 'level': 'model_checking',
         'coverage': {
@@ -173,7 +173,8 @@ def write_evidence(path, pid, tier, seed, prop, results, val_ok, val_bad, violat
             'traces_validated_against_impl': val_ok + replayed,
             'samples': samples,
             'evaluations': tot('queries') + tot('model_hits'), 'distinct_nontrivial': nontrivial,
-            'rule': getattr(prop, 'RULE', 'one state = one feasible path end of a harness (distinct decision sequence over symbolic inputs); transitions = branch decisions taken + solver-pruned branches'),
+            'rule': getattr(prop, 'RULE', 'one state = one feasible path end of a harness (distinct decision sequence over symbolic inputs); transitions = branch decisions taken + solver-pruned branches') +
+                    ' | states = feasible path ends (each a distinct decision sequence); distinct_nontrivial = those whose path condition holds at least one constraint over symbolic inputs (counted per path; paths that only made free shape / enumeration choices are not counted); evaluations = solver queries discharged + branch decisions answered from a cached model',
             'exhaustive': status in ('held', 'violations') and all(r['status'] == 'ok' for r in results),
             'status': status,
             'bounds': getattr(prop, 'BOUNDS', {}),
